@@ -53,9 +53,8 @@ Excluded / agnostic corners (the statement does not fix them):
   * whitespace around `=` and after `...` (significant, as in stock Django / as documented);
     whitespace characters other than space, tab, CR, LF, FF;
   * filters applied to a nested-template string (`"{{ a }}"|upper`) and filter arguments that
-    are nested-template strings; backslash escapes other than an escaped quote (`"a\\\\"` is a
-    TemplateSyntaxError here, `a\\` in stock Django - not covered by the statement); strings holding
-    both quote characters unescaped;
+    are nested-template strings; backslash escapes other than an escaped quote and an escaped
+    backslash (both are in the alphabet); strings holding both quote characters unescaped;
   * a backslash-escaped quote inside a nested-template string (`"\\"{{ x }}\\""`): the docs say the text
     between the quotes is a template but not whether the escape is undone first, so both readings are
     accepted (backslash kept, as the tree does / bare quote, as in a plain string) - anything else is
@@ -80,6 +79,7 @@ from __future__ import annotations
 
 import itertools
 
+from mc.prog import strip_markers
 from mc import boot, par
 from mc import c02_gen as g
 
@@ -583,6 +583,96 @@ def part_E(tier):
     return agg
 
 
+# --------------------------------------------------------------------------- part F: words that are also flags
+F_VALUE_FORMS = ("k=%s", "k=%s|default:'z'", "k=[%s]", 'k={"q": %s}', "k=[1, %s]", 'data-x=%s', "at:k=%s")
+
+
+def part_F(tier):
+    """A keyword argument whose VALUE is spelled like one of the tag's flags (`mode=only`, `data=default`) denotes the
+    variable of that name; only a bare word is the flag.  Seams: component tag / plain node (flag `only`), slot tag
+    (flags `default`, `required`; the value is observed as slot data in a fill).  Full product value form x genuine flag
+    absent / before / after x variable bound / unbound."""
+    from django.template import Context, Template
+
+    from django_components import Component
+    from django_components.component_registry import registry
+
+    st = _setup()
+    rec = st["rec"]
+    agg = par.Agg()
+
+    for seam in ("component", "node"):
+        for form in F_VALUE_FORMS:
+            for flag_pos in ("none", "before", "after"):
+                for bound in (True, False):
+                    w = "only"
+                    arg = form % w
+                    words = {"none": [arg], "before": [w, arg], "after": [arg, w]}[flag_pos]
+                    src = ('{%% component "probe" %s / %%}' if seam == "component" else "{%% probe %s / %%}") % " ".join(words)
+                    ctx = {"only": "W1"} if bound else {}
+                    # reference: the same words with the variable renamed to a word that is no flag
+                    ref_words = [x.replace("%s" % w, "c02_flagvar") if x is arg else x for x in words]
+                    ref_src = ('{%% component "probe" %s / %%}' if seam == "component" else "{%% probe %s / %%}") % " ".join(ref_words)
+                    ref_ctx = {"c02_flagvar": "W1"} if bound else {}
+                    agg.states += 1
+                    agg.nontrivial += 1
+                    got = execute(src, [ctx], seam)[0]
+                    ref = execute(ref_src, [ref_ctx], seam)[0]
+                    agg.transitions += 2
+                    agg.validated += 1
+                    agg.observe(got)
+                    agg.expected["flag-" + flag_pos] += 1
+                    if ref[0] != "ok":
+                        raise par.HarnessError("part F reference rendering failed: %s -> %r" % (ref_src, ref))
+                    if got != ref:
+                        agg.fail("F:flag-word-as-value:%s:%s:%s" % (seam, form, flag_pos),
+                                 "[%s seam] `%s` with %s: received %s; the same tag with the variable called `c02_flagvar` receives %s"
+                                 % (seam, src, ctx, _short(got), _short(ref)), {"part": "F", "src": src, "ctx": ctx, "ref_src": ref_src, "ref_ctx": ref_ctx, "seam": seam})
+    # slot tag: flags `default` / `required`
+    for w in ("default", "required"):
+        for form in F_VALUE_FORMS[:5]:
+            for bound in (True, False):
+                name = "c02f_%s_%d_%d" % (w, F_VALUE_FORMS.index(form), bound)
+                tpl = '{%% slot "s" %s %%}D{%% endslot %%}|{%% slot "t" default %%}T{%% endslot %%}' % (form % w)
+                cls = type("C02F_" + name, (Component,), {"__module__": "verif_c02f", "template": tpl,
+                                                          "get_context_data": lambda self, **kw: dict(kw)})
+                if name in registry.all():
+                    registry.unregister(name)
+                registry.register(name, cls)
+                kw = (' %s="W1"' % w) if bound else ""
+                pages = {
+                    # the value arrives as slot data; the slot is NOT `required` (no fill given -> default content) and NOT `default`
+                    "filled": '{%% component "%s"%s %%}{%% fill "s" data="dd" %%}[{{ dd.k }}]{%% endfill %%}{%% endcomponent %%}' % (name, kw),
+                    "unfilled": '{%% component "%s"%s / %%}' % (name, kw),
+                    "implicit": '{%% component "%s"%s %%}I{%% endcomponent %%}' % (name, kw),
+                }
+                v = "W1" if bound else ""
+                value = {"k=%s": v, "k=%s|default:'z'": v or "z", "k=[%s]": [v], 'k={"q": %s}': {"q": v}, "k=[1, %s]": [1, v]}[form]
+                body = "[%s]" % (value,)
+                want = {"filled": body + "|T", "unfilled": "D|T", "implicit": "D|I"}
+                for pname, page in pages.items():
+                    agg.states += 1
+                    agg.nontrivial += 1
+                    agg.transitions += 1
+                    agg.validated += 1
+                    try:
+                        got = strip_markers(Template(page).render(Context({})))
+                        import html as _html
+
+                        got = _html.unescape(got)
+                    except Exception as e:  # noqa
+                        got = "%s: %s" % (type(e).__name__, str(e)[:120])
+                    agg.observe(got)
+                    agg.expected["slot-" + pname] += 1
+                    if got != want[pname]:
+                        agg.fail("F:flag-word-as-value:slot:%s:%s:%s" % (w, form, pname),
+                                 "component template `%s`, page `%s`: rendered %r, expected %r (the keyword `%s` is slot data, not the `%s` flag)"
+                                 % (tpl, page, got, want[pname], form % w, w), {"part": "F", "slot_template": tpl, "page": page, "want": want[pname], "name": name})
+                registry.unregister(name)
+    boot.clear_render_registries()
+    return agg
+
+
 def run(ctx):
     ev, fnd = ctx.ev, ctx.fnd
     marker = MARKERS[ctx.seed % len(MARKERS)]
@@ -593,6 +683,11 @@ def run(ctx):
                 observed_distinct=len(e.observed), expected=e.expected, bound={"libraries": 2, "history_depth": 3, "expressions": len(E_EXPRS), "seams": 2},
                 samples=[{"history": ["verif_a", "verif_b"], "expr": E_EXPRS[0], "seam": "component"}])
     fnd.merge_reports(e.failures[:20])
+    f = part_F(ctx.tier)
+    ev.add_part("flag_words_as_values", states=f.states, transitions=f.transitions, validated=f.validated, nontrivial=f.nontrivial,
+                observed_distinct=len(f.observed), expected=f.expected, bound={"value_forms": list(F_VALUE_FORMS), "flags": ["only", "default", "required"], "seams": ["component", "node", "slot"]},
+                samples=[{"src": '{% component "probe" k=only only / %}', "ctx": {"only": "W1"}}])
+    fnd.merge_reports(f.failures[:20])
     W = par.NWORKERS
     results = par.run_tasks(_worker_task, [(w, W, (ctx.tier, marker)) for w in range(W)])
     total = {}
@@ -641,6 +736,12 @@ def _selftest(tier, marker):
 
 
 def replay(ctx, case):
+    if case.get("part") == "F":
+        _setup()
+        f = part_F("quick")
+        for x in f.failures[:8]:
+            print(x[1])
+        return not f.failures
     if case.get("part") == "E":
         _setup()
         e = part_E("quick")
